@@ -36,13 +36,13 @@ LEVEL_TEXT = ('every frame array / option combination inside the stated bounds w
 LEVEL_NOTE = ('trusted: numpy stores the values we assign and returns them through tolist(); Python decimal/fractions; '
               'nothing of TotalDepth is used to compute an expected value.  Small-scope: <= 3 channels, <= 3 frames, <= 4 values per frame')
 BOUNDS = {
-    'quick': 'family A (1 channel): 10 dtypes x 3 dims x every rotation of the value alphabet + an index ramp x frames {1,3} x 5 reductions '
-             'x subsets {none, unknown} x 3 (width, format) pairs; family B (2 channels): 2 index specs x 30 (dtype, dims) x 2 rotations x 2 frames '
-             'x 5 reductions x 6 subsets x 2 pairs; family C (3 channels): 1 index spec x 30 x 1 rotation x 2 frames x 5 reductions x 10 subsets; '
-             'two name/unit schemes',
-    'thorough': 'family A: 10 dtypes x 3 dims x every rotation + ramp x frames {1,2,3} x 5 reductions x subsets {none, index, unknown} x widths {16,8,1} '
-                'x formats {.3f,.0f,.6f}; family B: 4 index specs x 30 x every 2nd rotation x frames {1,2,3} x 5 reductions x 6 subsets x 5 pairs; '
-                'family C: 2 index specs x 30 x every 4th rotation x frames {1,2,3} x 5 reductions x 10 subsets x 3 pairs x 2 name schemes',
+    'quick': 'family A (1 channel): 10 dtypes x 4 dims x every rotation of the value alphabet + an index ramp x frames {1,3} x 5 reductions '
+             'x subsets {none, unknown} x 3 (width, format) pairs; family B (2 channels): 2 index specs x 40 (dtype, dims) x 2 rotations x 2 frames '
+             'x 5 reductions x 6 subsets x 2 pairs; family C (3 channels): 1 index spec x 40 x 1 rotation x 2 frames x 5 reductions x 10 subsets; '
+             'three name/unit schemes',
+    'thorough': 'family A: 10 dtypes x 4 dims x every rotation + ramp x frames {1,2,3} x 5 reductions x subsets {none, index, unknown} x widths {16,8,1} '
+                'x formats {.3f,.0f,.6f}; family B: 4 index specs x 40 x every 2nd rotation x frames {1,2,3} x 5 reductions x 6 subsets x 5 pairs; '
+                'family C: 2 index specs x 40 x every 4th rotation x frames {1,2,3} x 5 reductions x 10 subsets x 3 pairs x 3 name schemes',
 }
 RULE = ('product of (channel specs, frames, reduction, subset, field width, float format, name scheme) per family, each tuple once; '
         'cases whose index channel is not distinct at the printed precision are outside the domain and skipped (counted); '
@@ -50,7 +50,7 @@ RULE = ('product of (channel specs, frames, reduction, subset, field width, floa
         'outcome = hash of the text the writer produced (or of the exception)')
 ASSUMPTIONS = [
     'names, units and descriptions come from an alphabet a LAS header line can represent (no blank/dot/colon in names and units, no colon in descriptions, '
-    'not numeric, not yes/no, not DATE/TIME)',
+    'not numeric, not yes/no; the names TIME and DATE are used with ordinary units only, TIME.HHMMSS / DATE.D columns are outside the statement)',
     'index values are distinct at the printed precision (DESIGN domain note): LAS itself rejects a duplicate index',
     'integer values are bounded by |v| <= 2**53 (the reader holds float64)',
     'the precision is that of the token actually printed (integer channels are printed without decimals)',
@@ -61,7 +61,7 @@ ASSUMPTIONS = [
 ]
 
 DTYPES = ['f8', 'f4', 'i4', 'i8', 'u1', 'i1', 'i2', 'u2', 'u4', 'u8']
-DIMS = [(1,), (3,), (2, 2)]
+DIMS = [(1,), (3,), (2, 2), (1, 3)]      # (1, 3): several values per frame behind a leading dimension of one
 METHODS = ['first', 'mean', 'median', 'min', 'max']
 WIDTHS = [16, 8, 1]
 FORMATS = ['.3f', '.0f', '.6f']
@@ -70,6 +70,8 @@ UNKNOWN = 'ZZZ'
 SCHEMES = [
     {'names': ['DEPT', 'GR', 'A1'], 'units': ['m', 'gAPI', ''], 'longs': ['Depth', 'Gamma Ray', 'Res. deep (a/b)']},
     {'names': ['TIME1', 'X_2', 'LONGNAME12'], 'units': ['FEET', 'US/F', '%'], 'longs': ['Elapsed time', 'x', 'Long-name 12']},
+    # ordinary numeric channels that are merely *called* TIME and DATE (only TIME.HHMMSS and DATE.D are time / date columns)
+    {'names': ['DEPT', 'TIME', 'DATE'], 'units': ['m', 'S', 'd'], 'longs': ['Depth', 'Elapsed time', 'Day count']},
 ]
 # index channel specs used when there is more than one channel (dtype, dims); pattern is always the ramp 'idx'
 XSPECS = [('f8', (1,)), ('i4', (1,)), ('f4', (3,)), ('u2', (2, 2))]
@@ -368,7 +370,12 @@ def judge_text(case, text, exact, label, heading_valid=True):
                 unit = units_of_tokens[r][c]
                 if unit is None:
                     continue
-                v = float(data[r][0])
+                try:
+                    v = float(data[r][0])
+                except (TypeError, ValueError):
+                    add({'kind': 'value_not_a_number', 'via': 'LASRead', 'dtype': dt[0]},
+                        'frame %d channel %s read back as %r, not a number' % (r, case['names'][ci], data[r][0]))
+                    continue
                 want, extra = exact[ci][r]
                 if not math.isfinite(v):
                     add({'kind': 'value_not_a_number', 'via': 'LASRead', 'dtype': dt[0]}, 'frame %d channel %s read back as %r' % (r, case['names'][ci], v))
@@ -543,7 +550,7 @@ def cases_of(shard, tier):
         frames = [2] if quick else FRAMES
         pairs = [(8, '.3f'), (1, '.0f')] if quick else PAIRS5
         for pi, pat in enumerate(pats):
-            schemes = [0, 1] if pi == 0 else [0]
+            schemes = [0, 1, 2] if pi == 0 else [0]
             for scheme in schemes:
                 subs = _subsets(SCHEMES[scheme]['names'][:2])
                 for fr, method, sub, (fw, fmt) in itertools.product(frames, METHODS, subs, pairs):
@@ -557,7 +564,7 @@ def cases_of(shard, tier):
         pairs = [(8, '.3f')] if quick else [(16, '.3f'), (8, '.0f'), (1, '.6f')]
         for pat in pats:
             pat3 = (pat + 2) % n_rot(dt3)
-            for scheme in ([0] if quick else [0, 1]):
+            for scheme in ([0, 2] if quick else [0, 1, 2]):
                 subs = _subsets(SCHEMES[scheme]['names'][:3])
                 for fr, method, sub, (fw, fmt) in itertools.product(frames, METHODS, subs, pairs):
                     yield _mk(scheme, [(xdt, xdims, 'idx'), (dt, dims, pat), (dt3, dims3, pat3)], fr, method, sub, fw, fmt)
